@@ -46,6 +46,60 @@ func c12(c *Ctx) {
 	// it and a member behind the compaction point can never catch up
 	c15R1(c, "R13/C15.R1")
 	c15R2(c, "R13/C15.R2")
+	c12R14(c, "R14")
+}
+
+// c12R14: the periodic CommitTimeout tick of the replication routine is how a
+// follower that already holds every entry learns the leader's commit index
+// (heartbeats deliberately carry none). Every expiry sends – unconditionally –
+// an AppendEntries through replicateTo / pipelineSend; a "the follower looks
+// current, skip it" shortcut leaves a follower whose last commit announcement
+// was lost holding a committed entry it never commits or applies
+// (round-8 seed C12-P).
+func c12R14(c *Ctx, rule string) {
+	for _, it := range []struct{ fn, send string }{
+		{"(*Raft).replicate", "(*Raft).replicateTo"},
+		{"(*Raft).pipelineReplicate", "(*Raft).pipelineSend"},
+	} {
+		fn := c.Fn(rule, it.fn)
+		if fn == nil {
+			continue
+		}
+		n := 0
+		engine.EachInstr(fn, func(in ssa.Instruction) {
+			sel, ok := in.(*ssa.Select)
+			if !ok {
+				return
+			}
+			for k, st := range sel.States {
+				if st.Dir != types.RecvOnly || !strings.Contains(c.P.D(st.Chan), "randomTimeout(recv.config().CommitTimeout)") {
+					continue
+				}
+				arm := engine.SelectArmEntry(sel, k)
+				if arm == nil {
+					continue
+				}
+				n++
+				var ends []ssa.Instruction
+				ends = append(ends, sel)
+				for _, ret := range engine.RawReturnsOf(fn) {
+					ends = append(ends, ret)
+				}
+				r := c.Run(&engine.Automaton{Fn: fn, StartBlock: arm, StopAt: func(x ssa.Instruction) bool { return x == ssa.Instruction(sel) }, Tracks: []engine.Track{
+					engine.Event("sent", c.P.IsCallTo(engine.Is(it.send))),
+				}})
+				for i, e := range ends {
+					if !r.Reached(e) {
+						continue
+					}
+					c.RequireAt(r, rule, fmt.Sprintf("%s:commit-tick-always-sends#%d", strings.TrimPrefix(it.fn, "(*Raft)."), i), e, "every expiry of the CommitTimeout timer calls "+it.send+" before the routine waits again or leaves", func(v engine.View) bool { return v.Seen("sent") })
+				}
+			}
+		})
+		if n == 0 {
+			c.Bad(rule, strings.TrimPrefix(it.fn, "(*Raft).")+":commit-tick", c.P.Pos(fn.Pos()), "a select arm on randomTimeout(CommitTimeout)", "not found")
+		}
+	}
 }
 
 func c12R1(c *Ctx, rule string) {
